@@ -40,6 +40,20 @@ pub proof fn lemma_dedup_append_step<T>(a: Seq<T>, b: Seq<T>, i: int)
     requires 0 <= i < b.len()
     ensures dedup_append(a, b.take(i + 1)) == (if dedup_append(a, b.take(i)).contains(b[i]) { dedup_append(a, b.take(i)) } else { dedup_append(a, b.take(i)).push(b[i]) })
 { assert(b.take(i + 1).drop_last() =~= b.take(i)); }
+pub proof fn lemma_dedup_append_set<T>(a: Seq<T>, b: Seq<T>)
+    requires a.no_duplicates()
+    ensures dedup_append(a, b).no_duplicates(), dedup_append(a, b).to_set() =~= a.to_set() + b.to_set()
+    decreases b.len()
+{
+    if b.len() > 0 {
+        let p = dedup_append(a, b.drop_last());
+        lemma_dedup_append_set(a, b.drop_last());
+        lemma_push_set(p, b.last());
+        if !p.contains(b.last()) { lemma_push_nodup(p, b.last()); }
+        lemma_push_set(b.drop_last(), b.last());
+        assert(b.drop_last().push(b.last()) =~= b);
+    }
+}
 impl Vkeywitnesses {
     /// C16 representation invariant: the vector holds no element twice and the index set is exactly its element set
     pub open spec fn wf(&self) -> bool {
